@@ -51,7 +51,20 @@ def cmp_chunked_clamp(case, what):
     if h[0] != "CMP" or len(h) < 8: return False
     return int(h[7]) >= 2 and len(t[1].split()) >= (1 << 15) and ("present" in what or "lower_bound" in what)
 
-CLASSIFIERS = {"cmp_tiny_input_runtime_error": cmp_tiny_input, "cmp_chunked_clamp": cmp_chunked_clamp}
+def c07_scan_beyond_last(case, what):
+    """linear-scan routing, query above the last key, exactly one read more than 2*eps_r+3 (the real segment opened by the
+    closing point and the extra (last+1) segment share a key) -- Coq: IdxGapRefute.C07_refuted / C07_route_trace_wide"""
+    t = case.split("|")
+    h = t[0].split()
+    if h[0] != "IDX": return False
+    m, mq = re.search(r"touched=(\d+)", what), re.search(r"\bq=(-?\d+)", what)
+    if not (m and mq): return False
+    epsrec, kbits, fdouble = int(h[6]), int(h[3]), int(h[7])
+    threshold = 512 // (kbits // 8 + (8 if fdouble else 4) + 4)
+    keys = t[1].split()
+    return epsrec <= threshold and int(m.group(1)) == 2 * epsrec + 4 and int(mq.group(1)) > int(keys[-1])
+
+CLASSIFIERS = {"cmp_tiny_input_runtime_error": cmp_tiny_input, "cmp_chunked_clamp": cmp_chunked_clamp, "c07_scan_beyond_last": c07_scan_beyond_last}
 
 # ---------------------------------------------------------------- property table
 def P(**kw): return kw
